@@ -6,14 +6,14 @@ From Solstat Require Import Res Utils SlotSpec.
 Local Open Scope N_scope.
 
 (* ------------------------------------------------------------------ small facts *)
-Lemma sum_cons x g : sum (x :: g) = x + sum g.
+Lemma total_cons x g : total (x :: g) = x + total g.
 Proof. reflexivity. Qed.
 
-Lemma sum_single x : sum [x] = x.
-Proof. unfold sum. cbn [fold_right]. lia. Qed.
+Lemma total_single x : total [x] = x.
+Proof. unfold total. cbn [fold_right]. lia. Qed.
 
-Lemma sum_app a b : sum (a ++ b) = sum a + sum b.
-Proof. induction a as [|x a IH]; [reflexivity|]. cbn [app]. rewrite !sum_cons, IH. lia. Qed.
+Lemma total_app a b : total (a ++ b) = total a + total b.
+Proof. induction a as [|x a IH]; [reflexivity|]. cbn [app]. rewrite !total_cons, IH. lia. Qed.
 
 Lemma foldM_app {A S} (f : S -> A -> res S) (a b : list A) (s : S) :
   foldM f (a ++ b) s = bind (foldM f a s) (fun s' => foldM f b s').
@@ -41,18 +41,18 @@ Proof.
 Qed.
 
 (* items that fit are added to the current slot *)
-Lemma fold_within : forall xs b n, b + sum xs <= 256 ->
-  foldM slot_step xs (b, n) = Ok (b + sum xs, n).
+Lemma fold_within : forall xs b n, b + total xs <= 256 ->
+  foldM slot_step xs (b, n) = Ok (b + total xs, n).
 Proof.
   induction xs as [|x xs IH]; intros b n H.
-  - cbn [foldM sum fold_right]. rewrite N.add_0_r. reflexivity.
-  - rewrite sum_cons in H. cbn [foldM]. rewrite slot_step_fit by lia. cbn [bind].
-    rewrite IH by lia. rewrite sum_cons. f_equal; f_equal; lia.
+  - cbn [foldM total fold_right]. rewrite N.add_0_r. reflexivity.
+  - rewrite total_cons in H. cbn [foldM]. rewrite slot_step_fit by lia. cbn [bind].
+    rewrite IH by lia. rewrite total_cons. f_equal; f_equal; lia.
 Qed.
 
 Definition nonempty (g : list N) : Prop := g <> [].
-Definition fits (g : list N) : Prop := sum g <= 256.
-Definition overflows (g h : list N) : Prop := 256 < sum g + hd 0 h.
+Definition fits (g : list N) : Prop := total g <= 256.
+Definition overflows (g h : list N) : Prop := 256 < total g + hd 0 h.
 Definition len {A} (l : list A) : N := N.of_nat (length l).
 
 Lemma len_cons {A} (x : A) l : len (x :: l) = len l + 1.
@@ -62,18 +62,18 @@ Proof. unfold len. cbn [length]. lia. Qed.
 Lemma groups_run : forall gs b n,
   gs <> [] -> b <= 256 -> Forall nonempty gs -> Forall fits gs -> adjacent overflows gs ->
   256 < b + hd 0 (hd [] gs) -> n + len gs <= 4294967295 ->
-  foldM slot_step (concat gs) (b, n) = Ok (sum (last gs []), n + len gs).
+  foldM slot_step (concat gs) (b, n) = Ok (total (last gs []), n + len gs).
 Proof.
   induction gs as [|g rest IH]; intros b n Hne Hb Hn Hf Ha Hov Hlen; [contradiction|].
   inversion Hn as [|? ? Hg Hn']; subst. inversion Hf as [|? ? Hfg Hf']; subst.
   destruct g as [|x xs]; [exfalso; apply Hg; reflexivity|].
-  cbn [hd] in Hov. unfold fits in Hfg. rewrite sum_cons in Hfg.
+  cbn [hd] in Hov. unfold fits in Hfg. rewrite total_cons in Hfg.
   rewrite len_cons in Hlen.
   cbn [concat]. rewrite foldM_app. cbn [foldM app].
   rewrite slot_step_new by lia. cbn [bind].
   rewrite fold_within by lia. cbn [bind].
   destruct rest as [|h rest'].
-  - cbn [concat foldM last]. rewrite sum_cons. rewrite len_cons. cbn [len length].
+  - cbn [concat foldM last]. rewrite total_cons. rewrite len_cons. cbn [len length].
     f_equal; f_equal; lia.
   - cbn [adjacent] in Ha. destruct Ha as [Hgh Ha'].
     rewrite IH; try assumption.
@@ -89,10 +89,10 @@ Proof.
   cbn [length]. lia.
 Qed.
 
-Lemma sum_pos g : g <> [] -> Forall size_ok g -> 0 < sum g.
+Lemma total_pos g : g <> [] -> Forall size_ok g -> 0 < total g.
 Proof.
   intros Hg Hf. destruct g as [|x g]; [contradiction|].
-  inversion Hf as [|? ? Hx _]; subst. rewrite sum_cons. unfold size_ok in Hx. lia.
+  inversion Hf as [|? ? Hx _]; subst. rewrite total_cons. unfold size_ok in Hx. lia.
 Qed.
 
 Lemma Forall_concat_last {A} (P : A -> Prop) (gs : list (list A)) :
@@ -124,8 +124,8 @@ Proof.
   - inversion Hn as [|? ? Hg Hn']; subst. inversion Hf as [|? ? Hfg Hf']; subst.
     cbn [concat]. rewrite foldM_app. unfold fits in Hfg.
     rewrite fold_within by lia. cbn [bind]. rewrite N.add_0_l.
-    assert (Hpos : 0 < sum (last (g :: rest) [])).
-    { apply sum_pos; [apply last_nonempty; [discriminate | exact Hn] | apply Forall_concat_last; exact Hl]. }
+    assert (Hpos : 0 < total (last (g :: rest) [])).
+    { apply total_pos; [apply last_nonempty; [discriminate | exact Hn] | apply Forall_concat_last; exact Hl]. }
     destruct rest as [|h rest'].
     + cbn [concat foldM bind]. cbn [last] in Hpos. apply N.ltb_lt in Hpos. rewrite Hpos.
       unfold slot_incr, u32_max. reflexivity.
@@ -158,8 +158,8 @@ Lemma hd_app_nonempty (cur : list N) x : cur <> [] -> hd 0 (cur ++ [x]) = hd 0 c
 Proof. destruct cur; [contradiction | reflexivity]. Qed.
 
 Lemma fill_layout : forall l cur,
-  cur <> [] -> sum cur <= 256 -> Forall (fun s => s <= 256) l ->
-  let gs := fill cur (sum cur) l in
+  cur <> [] -> total cur <= 256 -> Forall (fun s => s <= 256) l ->
+  let gs := fill cur (total cur) l in
   concat gs = cur ++ l /\ Forall nonempty gs /\ Forall fits gs /\ adjacent overflows gs /\
   hd 0 (hd [] gs) = hd 0 cur.
 Proof.
@@ -171,14 +171,14 @@ Proof.
     + reflexivity.
   - inversion Hl as [|? ? Hx Hr]; subst.
     destruct cur as [|c cs] eqn:Ecur; [contradiction|]. rewrite <- Ecur in *.
-    assert (Hfill : fill cur (sum cur) (x :: r) =
-                    if 256 <? sum cur + x then cur :: fill [x] x r else fill (cur ++ [x]) (sum cur + x) r)
+    assert (Hfill : fill cur (total cur) (x :: r) =
+                    if 256 <? total cur + x then cur :: fill [x] x r else fill (cur ++ [x]) (total cur + x) r)
       by (rewrite Ecur; reflexivity).
-    rewrite Hfill. clear Hfill. destruct (256 <? sum cur + x) eqn:E.
+    rewrite Hfill. clear Hfill. destruct (256 <? total cur + x) eqn:E.
     + apply N.ltb_lt in E.
       assert (H1 : [x] <> []) by discriminate.
-      assert (H2 : sum [x] <= 256) by (rewrite sum_single; exact Hx).
-      destruct (IH [x] H1 H2 Hr) as (Ic & In_ & If & Ia & Ih). rewrite sum_single in *.
+      assert (H2 : total [x] <= 256) by (rewrite total_single; exact Hx).
+      destruct (IH [x] H1 H2 Hr) as (Ic & In_ & If & Ia & Ih). rewrite total_single in *.
       cbn [hd] in Ih.
       split; [|split; [|split; [|split]]].
       * cbn [concat]. rewrite Ic. reflexivity.
@@ -190,9 +190,9 @@ Proof.
       * reflexivity.
     + apply N.ltb_ge in E.
       assert (H1 : cur ++ [x] <> []) by (rewrite Ecur; discriminate).
-      assert (H2 : sum (cur ++ [x]) <= 256) by (rewrite sum_app, sum_single; exact E).
+      assert (H2 : total (cur ++ [x]) <= 256) by (rewrite total_app, total_single; exact E).
       destruct (IH (cur ++ [x]) H1 H2 Hr) as (Ic & In_ & If & Ia & Ih).
-      rewrite sum_app, sum_single in *.
+      rewrite total_app, total_single in *.
       split; [|split; [|split; [|split]]]; try assumption.
       * rewrite Ic. rewrite <- app_assoc. reflexivity.
       * rewrite Ih. apply hd_app_nonempty. exact Hne.
@@ -204,11 +204,11 @@ Proof.
   - cbn [fill]. repeat split; constructor.
   - inversion Hl as [|? ? Hx Hr]; subst. cbn [fill].
     assert (H1 : [x] <> []) by discriminate.
-    assert (H2 : sum [x] <= 256) by (rewrite sum_single; unfold size_ok in Hx; lia).
+    assert (H2 : total [x] <= 256) by (rewrite total_single; unfold size_ok in Hx; lia).
     assert (H3 : Forall (fun s => s <= 256) r)
       by (eapply Forall_impl; [| exact Hr]; intros s Hs; unfold size_ok in Hs; lia).
     destruct (fill_layout r [x] H1 H2 H3) as (Ic & In_ & If & Ia & _).
-    rewrite sum_single in *. repeat split; assumption.
+    rewrite total_single in *. repeat split; assumption.
 Qed.
 
 Theorem slots_spec_lemma : forall l,
